@@ -321,6 +321,34 @@ def structured_ops(rng, W, H, cfg):
             else:
                 ops.append(draw_op(rng, W, H, cfg))
         return ops
+    if rng.random() < cfg.get("p_clipstack", 0.06):
+        # a stack of 2-4 clip rectangles in every containment relation (equal, containing the one below, contained in it,
+        # overlapping), sometimes with a draw in between, then ALL of them popped, then draws: what was undone must be gone
+        ops, n = [], rng.randrange(2, 5)
+        r = rand_rect(rng, W, H)
+        for j in range(n):
+            ops.append("cliprect %d %d %d %d" % r)
+            if rng.random() < 0.3:
+                ops.append(draw_op(rng, W, H, cfg))
+            c = rng.random()
+            if c < 0.3:
+                r = (r[0] - rng.randrange(0, 3), r[1] - rng.randrange(0, 3), r[2] + rng.randrange(0, 3), r[3] + rng.randrange(0, 3))   # contains it
+            elif c < 0.6:
+                r = (r[0] + rng.randrange(0, 2), r[1] + rng.randrange(0, 2), r[2] - rng.randrange(0, 2), r[3] - rng.randrange(0, 2))   # inside it
+            elif c < 0.7:
+                pass                                                                                                                # the same again
+            else:
+                r = rand_rect(rng, W, H)
+        k = n if rng.random() < 0.7 else n - 1
+        for j in range(k):
+            ops.append("popclip")
+            if rng.random() < 0.3:
+                ops.append(draw_op(rng, W, H, cfg))
+        for _ in range(rng.randrange(1, 3)):
+            ops.append(draw_op(rng, W, H, cfg))
+        for j in range(n - k):
+            ops.append("popclip")
+        return ops
     if rng.random() < 0.08:
         # a run of layer groups with the SAME opacity and blend mode under different clip rectangles (anything cached per
         # opacity, per size or per target between two pops shows here), sometimes an empty one in between
